@@ -1,4 +1,6 @@
 """C09 - turmoil::net UDP delivers datagrams whole, to the right sockets, at most once."""
+import json
+
 import fam_udp as F
 from pipeline import PropSpec
 
@@ -37,6 +39,7 @@ def udp_oracle(case, obs):
     members = {}                             # (g, port) -> list of socket records
     sends = {}                               # payload id -> send record
     nsends = 0
+    dead = []
     drained = mark_drained(case, obs)
     t = 0
     for item in F.walk(case, obs):
@@ -85,6 +88,7 @@ def udp_oracle(case, obs):
                 out.append(("%s: leaving a group that was not joined succeeded" % where, None))
         elif name == "drop" and "ok" in r:
             rec["died"] = t
+            dead.append(rec)
             del live[h][sid]
             for ms in members.values():
                 if rec in ms:
@@ -92,7 +96,7 @@ def udp_oracle(case, obs):
         elif name == "send":
             nsends += 1
             dst, port, payload = cmd[2], cmd[3], cmd[4]
-            pid = (payload[0], payload[1])
+            pid = (payload[0], payload[1]) if len(payload) >= 2 else ("short", nsends)
             # --- Targets: written from the property text, not from the code path.
             # `addrs` = the (host, port) addresses the send is aimed at; `targets` = the
             # sockets holding such an address at the time of the send.
@@ -111,7 +115,7 @@ def udp_oracle(case, obs):
             targets = [x for hh in range(n) for x in live[hh].values() if (hh, x["port"]) in addrs]
             if dst == "bcast" and not rec["bcast"] and r.get("err") != "PermissionDenied":
                 out.append(("%s: broadcast without SO_BROADCAST returned %s" % (where, r), None))
-            sends[pid] = {"t": t, "where": where, "host": h, "sock": rec, "dst": dst, "port": port, "payload": payload,
+            sends[pid] = {"pid": pid, "t": t, "where": where, "host": h, "sock": rec, "dst": dst, "port": port, "payload": payload,
                           "targets": targets, "addrs": addrs, "origin": origin_of(rec, h, dst, v6),
                           "loopdst": isinstance(dst, dict) and "lo" in dst and (v6 or dst["lo"] == 1), "ok": "ok" in r}
         elif name == "recv" and cmd[3] != "readable":
@@ -135,8 +139,15 @@ def udp_oracle(case, obs):
                 cands = [s for s in cands if (h, rec["port"]) in s["addrs"] and s["origin"] == origin]
                 if not cands:
                     out.append(("%s: received %d bytes %s from %s matching no datagram addressed to this socket" % (where, nlen, data, origin), None))
-                rec["unidentified"] = rec.get("unidentified", 0) + 1
+                rec["nrecv"] = rec.get("nrecv", 0) + 1
+                if nlen < buflen:
+                    # not cut: the whole (0 or 1 byte) payload is known
+                    key = (tuple(data), json.dumps(origin))
+                    rec.setdefault("short", {})[key] = rec.setdefault("short", {}).get(key, 0) + 1
+                else:
+                    rec["unidentified"] = rec.get("unidentified", 0) + 1
                 continue
+            rec["nrecv"] = rec.get("nrecv", 0) + 1
             what = "%s received datagram %s of [%s]" % (where, list(sr["payload"][:2]), sr["where"])
             if (h, rec["port"]) not in sr["addrs"]:
                 out.append(("%s but the socket (host %d port %d, bound %s) is not targeted by that send" % (what, h, rec["port"], rec["kind"]), None))
@@ -155,18 +166,39 @@ def udp_oracle(case, obs):
             rec["got"][(data[0], data[1])] = rec["got"].get((data[0], data[1]), 0) + 1
             if rec["got"][(data[0], data[1])] > 1:
                 out.append(("%s %d times" % (what, rec["got"][(data[0], data[1])]), None))
-    # exactly once: healthy links, capacity never exceeded, socket alive and unfiltered to the end
+    # at most once, by count: a socket never hands out more datagrams than were addressed to its address
+    everyone = [x for hh in range(n) for x in live[hh].values()] + dead
+    for x in everyone:
+        addressed = [sr for sr in sends.values() if (x["host"], x["port"]) in sr["addrs"]]
+        if x.get("nrecv", 0) > len(addressed):
+            out.append(("host %d port %d returned %d datagrams but only %d were ever addressed to it" % (x["host"], x["port"], x.get("nrecv", 0), len(addressed)), None))
+    # exactly once: healthy links, capacity never exceeded, socket alive, unfiltered and drained at the end
     if cap >= nsends:
-        for pid, sr in sends.items():
-            for x in sr["targets"]:
-                if x["died"] is not None or len(x["peers"]) > 1 or x.get("unidentified"):
+        for x in everyone:
+            if x["died"] is not None or len(x["peers"]) > 1 or (x["host"], x["sid"]) not in drained:
+                continue
+            expected = [sr for sr in sends.values() if x in sr["targets"] and sr["ok"]
+                        and not (x["kind"] == "lo" and not sr["loopdst"])]
+            if x.get("nrecv", 0) < len(expected):
+                lens = sorted(len(sr["payload"]) for sr in expected)
+                out.append(("host %d port %d (alive, unconnected, drained, capacity %d not exceeded) was sent %d datagrams (payload lengths %s) over healthy links but returned only %d" % (x["host"], x["port"], cap, len(expected), lens, x.get("nrecv", 0)), None))
+            if x.get("unidentified"):
+                continue
+            for sr in expected:
+                pid = sr["pid"]
+                if pid[0] == "short":
                     continue
-                if x["kind"] == "lo" and not sr["loopdst"]:
-                    continue
-                if not sr["ok"]:
-                    continue
-                if x["got"].get(pid, 0) != 1 and (x["host"], x["sid"]) in drained:
+                if x["got"].get(pid, 0) != 1:
                     out.append(("datagram %s of [%s] was received %d times by host %d port %d (healthy links, capacity %d not exceeded, socket drained at the end)" % (list(pid), sr["where"], x["got"].get(pid, 0), x["host"], x["port"], cap), None))
+            want = {}
+            for sr in expected:
+                if sr["pid"][0] == "short":
+                    key = (tuple(sr["payload"]), json.dumps(sr["origin"]))
+                    want[key] = want.get(key, 0) + 1
+            for key, m in want.items():
+                g = x.get("short", {}).get(key, 0)
+                if g < m:
+                    out.append(("host %d port %d: %d datagram(s) with the %d-byte payload %s from %s were sent to it (healthy links, capacity not exceeded) but %d were received" % (x["host"], x["port"], m, len(key[0]), list(key[0]), key[1], g), None))
     return out
 
 
@@ -188,7 +220,7 @@ class Spec(PropSpec):
     props_file = "C09.v"
     theorems = ["c09_reachable_wf", "c09_routes_sound", "c09_at_most_once", "c09_routes_complete", "c09_exact",
                 "c09_drop_isolated", "c09_membership_at_send_time", "c09_clip", "c09_readable_keeps_order",
-                "c09_sound", "c09_received_at_most_once", "c09_sent_log", "c09_membership", "c09_consts", "c09_nonvacuous"]
+                "c09_sound", "c09_received_at_most_once", "c09_sent_log", "c09_membership", "c09_consts", "c09_nonvacuous", "c09_empty_datagram"]
     consts = CONSTS
     anchors = ANCHORS
     harness_bins = ["udp"]
@@ -197,6 +229,7 @@ class Spec(PropSpec):
     rule = ("scripts = bind (wildcard / localhost, fixed / ephemeral port) / connect / set_broadcast / set_multicast_loop / join / "
             "leave / send (remote, same host, 127.0.0.x, broadcast, multicast, unowned address; send_to and try_send_to) / "
             "recv (try_recv_from, recv_from polled once, readable) with buffers of 0..64 bytes / drop on 2-4 hosts, IPv4 and IPv6, "
+            "payload lengths from 0; a deterministic boundary family sends payloads of 0, 1, b-1, b, b+1 bytes for buffers b in {0,1,2,5} to every destination class and reads them on each receive path; "
             "udp_capacity 1..64 with slow receivers, latencies 0..6 ms that reorder, random host order; payloads carry a unique id; "
             "a case is non-trivial when some send has two or more targets or a targeted datagram was dropped; "
             "distinct = distinct (hosts, capacity, script)")
@@ -214,7 +247,7 @@ class Spec(PropSpec):
         ex = F.exhaustive_routing()
         if ctx.tier == "quick":
             ex = ctx.rng.sample(ex, 120)
-        cases = ex + [F.gen_udp_script(ctx.rng) for _ in range(nrand)]
+        cases = ex + F.boundary_cases() + [F.gen_udp_script(ctx.rng) for _ in range(nrand)]
         ctx.rng.shuffle(cases)
         return cases
 
